@@ -100,4 +100,116 @@ example : ∃ bs, encList ((codecAt env 1).enc "actions") [outAction, outAction]
     decList ((codecAt env 1).dec "actions") bs.length bs = some [outAction, outAction] :=
   actions_stream "actions" 1 _ (by intro e he; simp at he; subst he; exact outAction_ok)
 
+theorem vendorGenericTied : VendorGenericTied := by unfold VendorGenericTied; decide
+
+/-- `vendor_action_in_list` with its class hypothesis discharged: an `nx_action_resubmit` (subtype 14 = RESUBMIT_TABLE)
+    inside an action list comes back as a generic vendor action with the same bytes -/
+def resubmitL : Layout := ((cls "nx_action_resubmit").map (·.packL)).getD default
+example : ∃ bs body, encode (codecAt env 0) resubmitL
+      ⟨[.num 65535, .num 0x2320, .num 14, .num 0xfff8, .num 1], .none⟩ = some bs ∧
+    (codecAt env 1).dec "actions" (bs ++ [7]) = some (("ofp_action_vendor_generic", ⟨[.num 65535, .num 0x2320], .rest body⟩), [7]) := by
+  have hL : resubmitL =
+      ⟨[.uint "type" 2, .lenSelf 2, .uint "vendor" 4, .uint "subtype" 2, .uint "in_port" 2, .uint "table" 1, .pad 3], .none⟩ := by decide
+  rw [hL]
+  have he : encode (codecAt env 0) ⟨[.uint "type" 2, .lenSelf 2, .uint "vendor" 4, .uint "subtype" 2, .uint "in_port" 2, .uint "table" 1, .pad 3], .none⟩
+      (⟨[.num 65535, .num 0x2320, .num 14, .num 0xfff8, .num 1], .none⟩ : Rec (Elem 0)) =
+      some [0xff, 0xff, 0, 16, 0, 0, 0x23, 0x20, 0, 14, 0xff, 0xf8, 1, 0, 0, 0] := by decide
+  obtain ⟨body, hd, _⟩ := vendor_action_in_list vendorGenericTied 0 _ _ "type" "vendor" _ 0x2320 _ _ [7] rfl rfl he
+  exact ⟨_, body, he, hd⟩
+
+/-! ## Non-vacuity of the hand-model theorems -/
+
+/-- one fixed-size element of class `c` (layout `L`, no tail) encodes to `fixedSize L` bytes -/
+theorem single_elem_len (n : Nat) (fam c : String) (L : Layout) (vals : List Val) (t : Bytes)
+    (hL : env.layout c = some L) (hT : L.tail = .none)
+    (h : encList ((codecAt env (n + 1)).enc fam) [((c, ⟨vals, .none⟩) : Elem (n + 1))] = some t) :
+    t.length = fixedSize L.fixed := by
+  simp only [encList, codecAt, hL] at h
+  cases he : encode (codecAt env n) L ⟨vals, .none⟩ with
+  | none => simp [he] at h
+  | some a =>
+    simp only [he, Option.some.injEq] at h
+    obtain ⟨tb, htb, hl⟩ := encode_length _ _ _ _ he
+    simp only [hT, encTail, Option.some.injEq] at htb
+    subst htb; subst h
+    simp [hl]
+
+/-- `packet_out_roundtrip`: a packet-out with one action (output:TABLE), two data bytes, followed by a stray byte -/
+def poExample : PacketOut (Elem 1) := ⟨1, 13, 7, NO_BUFFER, 3, [outTable 0], [0xde, 0xad]⟩
+example : ∃ bs, encPacketOut (codecAt env 1) poExample = some bs ∧
+    decPacketOut (codecAt env 1) (bs ++ [9]) = some (poExample, [9]) ∧ hdrLen packetOutL (bs ++ [9]) = some bs.length :=
+  packet_out_roundtrip 1 poExample [9] (by decide) (by decide) (by decide) (by decide) (by decide)
+    (by intro e he; simp [poExample] at he; subst he; exact outTable_ok outL_is 0)
+    (by intro acts ha; have := outTable_len outL_is 0 acts ha; simp only [poExample, List.length_cons, List.length_nil]; omega)
+
+/-- `stats_reply_list_roundtrip`: a port-stats reply (type 4, registered as a list of `ofp_port_stats`) with one entry -/
+def psElem : Elem 1 :=
+  ("ofp_port_stats", ⟨[.num 1, .num 2, .num 3, .num 4, .num 5, .num 6, .num 7, .num 8, .num 9, .num 10, .num 11,
+                       .num 0xffffffffffffffff, .num 0], .none⟩)
+def psReply : Rec (Elem 1) := ⟨[.num 1, .num 17, .num 5, .num 4, .num 1], .items [psElem]⟩
+theorem psLayout : env.layout "ofp_port_stats" = some Spec.OF10.ofp_port_stats := by decide
+theorem psElem_ok : okAt env 1 "ofp_port_stats" psElem := by
+  refine ⟨Spec.OF10.ofp_port_stats, psLayout, ?_, by decide, .inr rfl, ?_⟩
+  · exact fits_of_fitsFlat _ _ Spec.OF10.ofp_port_stats _ none (by decide)
+  · show Picks env "ofp_port_stats" "ofp_port_stats" _ _
+    unfold Picks
+    have : env.family "ofp_port_stats" = some (.single "ofp_port_stats") := by decide
+    rw [this]
+example : ∃ bs, encStats (codecAt env 1) true psReply = some bs ∧
+    decStats (codecAt env 1) true (bs ++ [9, 9]) = some (psReply, [9, 9]) ∧
+    hdrLen ⟨statsFixed, .rest "body"⟩ (bs ++ [9, 9]) = some bs.length :=
+  stats_reply_list_roundtrip 1 4 "ofp_port_stats" psReply [9, 9] (by decide) rfl
+    ⟨by decide, by intro e he; simp [psReply] at he; subst he; exact psElem_ok,
+     by intro t ht
+        have ht' : encList ((codecAt env (0 + 1)).enc "ofp_port_stats") [psElem] = some t := ht
+        have := single_elem_len 0 "ofp_port_stats" "ofp_port_stats" Spec.OF10.ofp_port_stats _ t psLayout rfl ht'
+        show lenFits (fixedSize statsFixed + t.length) statsFixed = true
+        rw [this]; decide⟩
+
+/-- `stats_body_roundtrip`: an aggregate reply (type 2, single body of 24 bytes) -/
+def aggBody : Bytes := [0, 0, 0, 0, 0, 0, 0, 1, 0, 0, 0, 0, 0, 0, 0, 2, 0, 0, 0, 3, 0, 0, 0, 0]
+example : ∃ bs, encStats (codecAt env 0) true ⟨[.num 1, .num 17, .num 5, .num 2, .num 0], .rest aggBody⟩ = some bs ∧
+    decStats (codecAt env 0) true (bs ++ [9]) = some (⟨[.num 1, .num 17, .num 5, .num 2, .num 0], .rest aggBody⟩, [9]) ∧
+    decBody (codecAt env 0) Spec.OF10.ofp_aggregate_stats_reply aggBody = some (⟨[.num 1, .num 2, .num 3], .none⟩, []) :=
+  stats_body_roundtrip 0 true 2 Spec.OF10.ofp_aggregate_stats_reply ⟨[.num 1, .num 2, .num 3], .none⟩ _ aggBody [9]
+    (by intro c; have : replyKind 2 = .single "ofp_aggregate_stats" := by decide
+        simp [this])
+    rfl
+    (fits_of_fitsFlat _ _ Spec.OF10.ofp_aggregate_stats_reply [.num 1, .num 2, .num 3] none (by decide))
+    (by decide)
+    (fits_of_fitsFlat _ _ ⟨statsFixed, .rest "body"⟩ [.num 1, .num 17, .num 5, .num 2, .num 0] (some aggBody) (by decide))
+
+/-- `nx_flow_mod_roundtrip`: an NXT_FLOW_MOD for table 2 matching in_port = 3 (one 6-byte NXM entry, so 2 pad bytes) -/
+def nxfmExample : CodecNX.NxFlowMod (Elem 0) :=
+  ⟨1, 4, 9, 0x2320, 13, 5, 0, 2, 10, 20, 100, NO_BUFFER, 0xffff, 0, [⟨0, [0, 3], none, false⟩], []⟩
+theorem nxExample_match : CodecNX.packMatch [⟨0, [0, 3], none, false⟩] = some [0, 0, 0, 2, 0, 3] := by decide
+theorem nxExample_entries : ∀ e ∈ [(⟨0, [0, 3], none, false⟩ : CodecNXM.Entry)], CodecNXM.Canonical e.value.length e ∧ e.value.length < 64 ∧
+    e.type < 2 ^ 23 ∧ (CodecNXM.known e.type = some e.value.length ∨ CodecNXM.known e.type = none) := by
+  intro e he
+  simp only [List.mem_singleton] at he
+  subst he
+  exact ⟨⟨rfl, rfl⟩, by decide, by decide, .inl (by decide)⟩
+example : ∃ bs, CodecNX.encNxFlowMod (codecAt env 0) nxfmExample = some bs ∧
+    CodecNX.decNxFlowMod (codecAt env 0) (bs ++ [9]) = some (nxfmExample, [9]) ∧
+    hdrLen CodecNX.nxfmL (bs ++ [9]) = some bs.length :=
+  nx_flow_mod_roundtrip 0 nxfmExample [9] (by decide) (by decide) (by decide) (by decide) (by decide) (by decide) (by decide)
+    (by decide) (by decide) (by decide) (by decide) (by decide) (by decide) (by decide) nxExample_entries
+    (by intro e he; simp [nxfmExample] at he)
+    (by intro mb acts hmb ha
+        have h1 : mb = [0, 0, 0, 2, 0, 3] := by
+          have := nxExample_match; simp only [nxfmExample] at hmb; rw [this] at hmb; exact (Option.some.inj hmb).symm
+        have h2 : acts = [] := by simp only [nxfmExample, encList] at ha; exact (Option.some.inj ha).symm
+        subst h1; subst h2; decide)
+
+/-- `nxt_packet_in_roundtrip`: an NXT_PACKET_IN with the same match and three data bytes -/
+def nxpiExample : CodecNX.NxPacketIn := ⟨1, 4, 9, 0x2320, 17, 77, 3, 1, 0, 5, [⟨0, [0, 3], none, false⟩], [1, 2, 3]⟩
+example : ∃ bs, CodecNX.encNxPacketIn nxpiExample = some bs ∧ CodecNX.decNxPacketIn (bs ++ [9]) = some (nxpiExample, [9]) ∧
+    hdrLen CodecNX.nxpiL (bs ++ [9]) = some bs.length :=
+  nxt_packet_in_roundtrip nxpiExample [9] (by decide) (by decide) (by decide) (by decide) (by decide) (by decide) (by decide)
+    (by decide) (by decide) (by decide) nxExample_entries
+    (by intro mb hmb
+        have h1 : mb = [0, 0, 0, 2, 0, 3] := by
+          have := nxExample_match; simp only [nxpiExample] at hmb; rw [this] at hmb; exact (Option.some.inj hmb).symm
+        subst h1; decide)
+
 end Pox.C01
